@@ -6,7 +6,7 @@ from .common import *
 
 EXPLANATION = (
     "Affine value numbering of every return path of the splitting functions (bodies are loop-free; rotations are "
-    "uninterpreted calls). C16.R1: for BumpBox<[T]>::split_off, BumpBox<str>::split_off, FixedBumpVec::split_off (all "
+    "uninterpreted calls). C16.R1: for BumpBox<[T]>::split_off, BumpBox<str>::split_off, FixedBumpVec / FixedBumpString::split_off (all "
     "arms), split_at_unchecked, split_first, split_last, split_at_spare: the two parts are adjacent (one starts at the "
     "base pointer, the other at base + length/capacity of the first in elements), their lengths add up to the original "
     "length and, for fixed vectors, their capacities to the original capacity; zero-sized arms: lengths add up, capacity "
